@@ -554,7 +554,11 @@ class _ExtendedTypeFetcher(Thread):
         self._done_callback = None
         self._req_param = -1
         self._cf.remove_port_callback(CRTPPort.PARAM, self._new_packet_cb)
-        self._cf.disconnected.remove_callback(self._disconnected)
+        try:
+            self._cf.disconnected.remove_callback(self._disconnected)
+        except ValueError:
+            # disconnected can be called from two threads at the same time
+            pass
         self._close()
 
     def _new_packet_cb(self, pk):
